@@ -20,7 +20,7 @@
     rawtext_endtag_not_recovered comment_dashes_not_recovered attr_ws_not_recovered_xhtml
     markup_text_not_recovered raw_table_matches_reader normEol_id doctype_table_is_w3c
     doctype_literal_roundtrip xmldecl_literal_roundtrip html_roundtrip_doc_partial xhtml_roundtrip_doc_tokens_partial
-    xhtml_roundtrip_doc_partial
+    xhtml_roundtrip_doc_partial output_no_cr xhtml_roundtrip_doc_readxml_partial
 -/
 import Genshi.Lemmas.ReaderXhtml
 import Genshi.Lemmas.ReaderTree
@@ -29,6 +29,7 @@ import Genshi.Lemmas.ReaderXhtmlCdata
 import Genshi.Lemmas.ReaderPrologSim
 import Genshi.Lemmas.ReaderXmlView
 import Genshi.Lemmas.ReaderDocView
+import Genshi.Lemmas.OutputNoCR
 import Genshi.Lemmas.OutputSafeText
 import Genshi.Lemmas.Output
 import Genshi.Lemmas.OutputFlatten
@@ -688,6 +689,99 @@ theorem xhtml_roundtrip_doc_partial (cache dropd : Bool) (u : Str) (hu : u ≠ x
       xmlView_prolog _ _ _ _ hdecl hwin, xmlView_forestP u body hx]
     rfl
 
+/-- without CR the expat view applies the tokenizer to the text as it is -/
+theorem normEol_id (s : Str) (h : '\r' ∉ s) : normEol s = s := by
+  unfold normEol
+  induction s with
+  | nil => rfl
+  | cons c cs ih =>
+    have hc : (c == '\r') = false := by
+      have : c ≠ '\r' := fun e => h (by simp [e])
+      simpa using this
+    have hcs : '\r' ∉ cs := fun e => h (by simp [e])
+    simp [normEolGo, hc, ih hcs]
+
+/-- what `render` (strip off) writes for a document: the main loop's specification over the prolog
+    events, the option's DOCTYPE in its place, and the filtered body -/
+theorem render_doc (m : Method) (cache dropd : Bool) (u : Str) (hu : u ≠ xmlNs) (dopt : Option DocTypeT)
+    (decl : Option DeclT) (dt : Option DocTypeT) (body : List Node)
+    (hok : okList body = true) (hns : forestUniformNs u body = true) (hB : notXdHead (forestFu u false body) = true) :
+    render m { strip := false, cache := cache, doctype := dopt, dropXmlDecl := dropd }
+        (flattenList (docNodes decl dt body)) =
+      some (serSpec m ⟨dropd⟩ {} (declF decl ++ (dtF dopt ++ (dtF dt ++ forestFu u false body)))).flatten := by
+  have hc : render m { strip := false, cache := cache, doctype := dopt, dropXmlDecl := dropd }
+        (flattenList (docNodes decl dt body)) =
+      render m { strip := false, cache := false, doctype := dopt, dropXmlDecl := dropd }
+        (flattenList (docNodes decl dt body)) := by
+    cases cache
+    · rfl
+    · exact Genshi.Props.C08.render_cache_irrelevant' m false dopt dropd _
+  rw [hc]
+  have hf := filtered_forestU_dt m dropd u hu dopt (docNodes decl dt body) (okList_doc decl dt body hok)
+    (uniformNs_doc u decl dt body hns)
+  rw [forestFu_doc, withDoctype_doc _ _ _ _ hB] at hf
+  have hl : ∀ evs, loop m ⟨dropd⟩ false {} evs = serSpec m ⟨dropd⟩ {} evs :=
+    fun evs => loop_nocache_eq_spec m ⟨dropd⟩ evs {}
+  simp only [render, chunks, hf, Option.map_some, hl]
+
+/-- The serializers write no carriage return unless the stream holds one: for every method, option
+    setting, context and filtered stream whose strings are free of CR, so is the output. -/
+theorem output_no_cr (m : Method) (o : Opts) (useCache : Bool) (evs : List FEv) (h : ∀ ev ∈ evs, evNcr ev = true) :
+    '\r' ∉ (loop m o useCache {} evs).flatten := by
+  have hl : loop m o useCache {} evs = serSpec m o {} evs := by
+    cases useCache
+    · exact loop_nocache_eq_spec m o evs {}
+    · exact loop_cache_eq_spec m o evs {} (cacheOk_nil m o)
+  rw [hl]
+  have := serSpec_ncr m o evs {} h
+  intro hmem
+  have := List.all_eq_true.mp this '\r' hmem
+  simp at this
+
+/-- xhtml, over whole documents, as ONE statement about expat's reading of the output (`readXml` =
+    line-end normalisation, tokenizer, namespace resolution): under the hypotheses of
+    `xhtml_roundtrip_doc_partial` and when no string of the document holds a carriage return
+    (`forestNcr` …; with one, XML line-end normalisation changes the text: finding C08-text-cr), the
+    parser delivers the declaration, the winning DOCTYPE and the body with qualified names. -/
+theorem xhtml_roundtrip_doc_readxml_partial (cache dropd : Bool) (u : Str) (hu : u ≠ xmlNs) (huv : attrValOkB u = true)
+    (dopt : Option DocTypeT) (decl : Option DeclT) (dt : Option DocTypeT) (body : List Node)
+    (hok : okList body = true) (hns : forestUniformNs u body = true) (hh : xKidsOkP false body = true)
+    (hx : xmlForestOkP true body = true)
+    (hdecl : xdViewOk ⟨dropd⟩ decl = true) (hwin : dtOkOf (winDt dopt dt) = true)
+    (hcr : docNcr u dopt decl dt body = true) :
+    (render .xhtml { strip := false, cache := cache, doctype := dopt, dropXmlDecl := dropd }
+        (flattenList (docNodes decl dt body))).bind readXml =
+      some (xdXOf ⟨dropd⟩ decl ++ (dtXOf (winDt dopt dt) ++
+        (assemble (forestPiecesXP u false body)).flatMap (xmlMapTok u))) := by
+  have h1 := xhtml_roundtrip_doc_partial cache dropd u hu huv dopt decl dt body hok hns hh hx hdecl hwin
+  have hr := render_doc .xhtml cache dropd u hu dopt decl dt body hok hns (notXdHead_bodyX u false body hh)
+  rw [hr] at h1 ⊢
+  simp only [Option.bind_some] at h1 ⊢
+  simp only [docNcr, Bool.and_eq_true] at hcr
+  obtain ⟨⟨⟨⟨hu', hb⟩, hd1⟩, hd2⟩, hd3⟩ := hcr
+  have hev : ∀ ev ∈ declF decl ++ (dtF dopt ++ (dtF dt ++ forestFu u false body)), evNcr ev = true := by
+    intro ev hev
+    simp only [List.mem_append] at hev
+    rcases hev with h | h | h | h
+    · cases decl with
+      | none => simp [declF] at h
+      | some x => simp only [declF, List.mem_singleton] at h; subst h; simpa [evNcr, declNcr] using hd1
+    · cases dopt with
+      | none => simp [dtF] at h
+      | some x => simp only [dtF, List.mem_singleton] at h; subst h; simpa [evNcr, dtNcr] using hd2
+    · cases dt with
+      | none => simp [dtF] at h
+      | some x => simp only [dtF, List.mem_singleton] at h; subst h; simpa [evNcr, dtNcr] using hd3
+    · exact ncr_forestFu u hu' false body hb ev h
+  have hn := serSpec_ncr .xhtml ⟨dropd⟩ _ {} hev
+  have hnot : '\r' ∉ (serSpec .xhtml ⟨dropd⟩ {} (declF decl ++ (dtF dopt ++ (dtF dt ++ forestFu u false body)))).flatten := by
+    intro hmem
+    have := List.all_eq_true.mp hn '\r' hmem
+    simp at this
+  unfold readXml
+  rw [normEol_id _ hnot]
+  exact h1
+
 def exDocBody : List Node :=
   [.leaf (.pi ['p', 'h', 'p'] ['e', 'c', 'h', 'o']),
    .elem ⟨xhtmlNs, ['p']⟩ [(⟨[], ['c', 'h', 'e', 'c', 'k', 'e', 'd']⟩, ['y'])]
@@ -829,17 +923,5 @@ theorem markup_text_not_recovered :
 /-- the elements the html serializer writes raw are the ones the reader (html.parser) reads raw -/
 theorem raw_table_matches_reader :
     (Gen.Output.htmlNoescapeElems.filter (fun p => p.1.isEmpty)).map (·.2) = rawTextElems := by decide
-
-/-- without CR the expat view applies the tokenizer to the text as it is -/
-theorem normEol_id (s : Str) (h : '\r' ∉ s) : normEol s = s := by
-  unfold normEol
-  induction s with
-  | nil => rfl
-  | cons c cs ih =>
-    have hc : (c == '\r') = false := by
-      have : c ≠ '\r' := fun e => h (by simp [e])
-      simpa using this
-    have hcs : '\r' ∉ cs := fun e => h (by simp [e])
-    simp [normEolGo, hc, ih hcs]
 
 end Genshi.Props.C08
